@@ -185,7 +185,7 @@ func runC10(rec *vk.Rec, ci, rep int) {
 	}
 	// wait until every subscriber's SUBACK is in its stream (subscription stable before the first publish)
 	for _, s := range subs {
-		deadline := time.Now().Add(30 * time.Second)
+		deadline := time.Now().Add(120 * time.Second)
 		for {
 			if s.lc != nil {
 				s.lc.Flush()
